@@ -202,6 +202,20 @@ func verifH_C19_stream() {
 		dstCols:  []string{"num", "txt"},
 		srcCols:  []int{1, 0},
 		colTypes: []storage.DataType{storage.TypeInt, storage.TypeVarchar}}
+	// sparse=1: the mapping skips a CSV column (source columns 2 and 0 of three),
+	// and a record may have two fields only (as many as are mapped, fewer than needed)
+	sparse := verifParam("sparse", 0) == 1
+	nclass := 6
+	if sparse {
+		cfg.srcCols = []int{2, 0}
+		nclass = 7
+	}
+	mid := func(line []byte) []byte {
+		if sparse {
+			return append(append(line, byte(sep)), 'f')
+		}
+		return line
+	}
 	rm := &verifImportRM{}
 	var input []byte
 	type want struct {
@@ -211,7 +225,7 @@ func verifH_C19_stream() {
 	var wants []want
 	accepted, insertCalls := 0, 0
 	for r := 0; r < n; r++ {
-		class := verifChoice("class", 6)
+		class := verifChoice("class", nclass)
 		txt := verifBytes("txt", 2)
 		for _, c := range txt {
 			verifAssume(verifAnd(verifAnd(c != byte(sep), c != '"'), verifAnd(c != '\n', c != '\r')))
@@ -228,19 +242,22 @@ func verifH_C19_stream() {
 		w := want{}
 		switch class {
 		case 0:
-			line = append(append(append([]byte{}, txt...), byte(sep)), dg...)
+			line = append(append(mid(append([]byte{}, txt...)), byte(sep)), dg...)
 			w = want{true, []interface{}{num, string(txt)}}
 		case 1:
-			line = append(append([]byte("\\N"), byte(sep)), dg...)
+			line = append(append(mid([]byte("\\N")), byte(sep)), dg...)
 			w = want{true, []interface{}{num, nil}}
 		case 2:
 			line = append([]byte{}, txt...)
 		case 3:
-			line = append(append(append([]byte{txt[0], '"', txt[1]}, byte(sep)), dg...))
+			line = append(append(mid([]byte{txt[0], '"', txt[1]}), byte(sep)), dg...)
 		case 4:
-			line = append(append(append([]byte{}, txt...), byte(sep)), 'x', dg[0])
+			line = append(append(mid(append([]byte{}, txt...)), byte(sep)), 'x', dg[0])
+		case 6:
+			// sparse mapping only: two fields, the number column is missing
+			line = mid(append([]byte{}, txt...))
 		default:
-			line = append(append(append([]byte{}, txt...), byte(sep)), dg...)
+			line = append(append(mid(append([]byte{}, txt...)), byte(sep)), dg...)
 			// the manager refuses this one record (at most one such record per stream)
 			if rm.failOn != 0 {
 				verifAssume(false)
